@@ -586,21 +586,27 @@ structure InFile where
   data : Bytes
 deriving DecidableEq, Repr
 
-/-- `begin_file`, `append` (not called for an empty file), `end_file` -/
-def packFile (P : Params) (s : Proc) (f : InFile) : Except Err Proc :=
+/-- `begin_file`, `append` (not called for an empty file), `end_file`.  With `sy` the caller also calls the public
+`sqfs_block_processor_sync` before `end_file`, i.e. while the file is still open (the packers never do; a library
+user may) -/
+def packFile (P : Params) (s : Proc) (f : InFile) (sy : Bool := false) : Except Err Proc :=
   match beginFile s f.flags with
   | .error e => .error e
   | .ok s1 =>
     match (if f.data.length = 0 then .ok s1 else append P s1 f.data) with
     | .error e => .error e
-    | .ok s2 => endFile P s2
+    | .ok s2 =>
+      match (if sy then sync P s2 else .ok s2) with
+      | .error e => .error e
+      | .ok s3 => endFile P s3
 
-def packFiles (P : Params) : Proc → List InFile → Except Err Proc
-  | s, [] => .ok s
-  | s, f :: fs =>
-    match packFile P s f with
+def packFiles (P : Params) (s : Proc) (files : List InFile) (sy : Bool := false) : Except Err Proc :=
+  match files with
+  | [] => .ok s
+  | f :: fs =>
+    match packFile P s f sy with
     | .error e => .error e
-    | .ok s' => packFiles P s' fs
+    | .ok s' => packFiles P s' fs sy
 
 /-- the inode fields the tools serialise for a file -/
 structure FileRes where
@@ -627,13 +633,13 @@ deriving DecidableEq, Repr
 def W.output (w : W) : Output := ⟨w.calls, w.wr.file, w.fragTbl, w.inodes.map Inode.res⟩
 
 /-- **the run**: create the processor with `max_backlog = mb`, pack the files in order, `finish` -/
-def runProc (P : Params) (mb : Nat) (files : List InFile) : Except Err Proc :=
-  match packFiles P (create P mb) files with
+def runProc (P : Params) (mb : Nat) (files : List InFile) (sy : Bool := false) : Except Err Proc :=
+  match packFiles P (create P mb) files sy with
   | .error e => .error e
   | .ok s => finish P s
 
-def run (P : Params) (mb : Nat) (files : List InFile) : Except Err Output :=
-  match runProc P mb files with
+def run (P : Params) (mb : Nat) (files : List InFile) (sy : Bool := false) : Except Err Output :=
+  match runProc P mb files sy with
   | .error e => .error e
   | .ok s => .ok s.w.output
 
